@@ -179,7 +179,7 @@ func runLeakCase(c lkCase, bin, base string) map[string]interface{} {
 					out["op_note"] = fmt.Sprintf("raw closed second: %v %q", err, r.S)
 				}
 			}
-		case "raw_accept_unserved":
+		case "raw_accept_unserved", "raw_accept_unserved_twice":
 			// the host application reserves an id with the broker's raw Accept and never gets round to accepting
 			// on the listener; the plugin dials the id once (its first call cannot be answered and gives up);
 			// the application closes the listener after the Kill
@@ -191,10 +191,14 @@ func runLeakCase(c lkCase, bin, base string) map[string]interface{} {
 					break
 				}
 				unserved = append(unserved, ln)
-				ctx, cf := context.WithTimeout(context.Background(), 20*time.Second)
-				r, err := stub.DoCtx(ctx, vp.Cmd{Op: "dial", ID: id})
-				cf()
-				out["op_note"] = fmt.Sprintf("unserved: %v %q", err, r.S)
+				// (_twice: the plugin dials the id a second time; under multiplexing that knock finds the first
+				// one's token still waiting and its acknowledgement has to wait -- until the listener is closed)
+				for k := 0; k < 1+strings.Count(op, "_twice"); k++ {
+					ctx, cf := context.WithTimeout(context.Background(), 20*time.Second)
+					r, err := stub.DoCtx(ctx, vp.Cmd{Op: "dial", ID: id})
+					cf()
+					out["op_note"] = fmt.Sprintf("unserved: %v %q", err, r.S)
+				}
 			}
 		case "unmatched_dials":
 			// the plugin dials one id twice at once, nobody ever accepts: both calls give up
